@@ -375,6 +375,7 @@ def run(repo: Repo, chk: Check):
     chk.judge("R04.f", "register_assignment:assign_registers:a scope is ordered only after all scopes it is called from", ok_ord,
               "sorted_scopes.append(scope) is not guarded by called_from[scope] ⊆ already-sorted scopes", None, wa)
     rule_functions_below_modules(repo, chk, "R04.f")
+    chk.guarded(rule_module_chain, repo, chk, "R04.f")
     chk.rule("R04.h", "when a name is made to stand for another value's register (no copy), the accesses of that name are added to the register's "
                       "accesses and enter its lifetime: the register is not released while the new name is still read", floor=2)
     chk.guarded(r04h, repo, chk)
@@ -739,3 +740,62 @@ def r04h(repo, chk, R="R04.h"):
         chk.judge(R, "types:IC10Register.lifetime:the handed-over accesses enter the lifetime", bool(used),
                   f"handle_assign records the accesses of the sharing name in {sorted(attrs)}, but IC10Register.lifetime does not include that list in the accesses it widens",
                   None, f"{t.path}:{lf.lineno} in IC10Register.lifetime")
+
+
+# ---------------------------------------------------------------------- R04.f / R13.f: the module scopes form a chain
+def rule_module_chain(repo, chk, R):
+    """Every library module scope is entered 'from' the main scope and from every module scope ordered before it: module-level
+    values live for the whole program, so two modules must not draw their registers from the same pool."""
+    ra = repo.mod("register_assignment")
+    af = ra.func("assign_registers")
+    cfg, rd = fn_ctx(af)
+    wa = f"{ra.path}:{af.lineno} in assign_registers"
+
+    def modules_iter(e, at, depth=0):
+        t = norm(e)
+        if "data.modules" in t:
+            return True
+        if isinstance(e, ast.Call) and norm(e.func) in ("sorted", "list", "set", "enumerate", "tuple") and e.args:
+            return modules_iter(e.args[0], at, depth + 1)
+        if isinstance(e, ast.Name) and depth < 4:
+            ids_ = live_ids(cfg, at)
+            ds_ = rd.at(ids_[0], e.id) if ids_ else []
+            return bool(ds_) and all(d_.kind == "assign" and not d_.index and d_.value is not None and modules_iter(d_.value, cfg.nodes[d_.node].ast, depth + 1) for d_ in ds_)
+        return False
+    n = 0
+    for lp in ast.walk(af):
+        if not (isinstance(lp, ast.For) and modules_iter(lp.iter, lp.iter)):
+            continue
+        mvar = lp.target.id if isinstance(lp.target, ast.Name) else (lp.target.elts[-1].id if isinstance(lp.target, ast.Tuple) and isinstance(lp.target.elts[-1], ast.Name) else None)
+        pvar = lp.target.elts[0].id if isinstance(lp.target, ast.Tuple) and isinstance(lp.target.elts[0], ast.Name) and "enumerate" in norm(lp.iter) else None
+        for st in lp.body:
+            if not (isinstance(st, ast.Assign) and len(st.targets) == 1 and isinstance(st.targets[0], ast.Subscript) and "called_from" in norm(st.targets[0].value)
+                    and norm(st.targets[0].slice) == mvar):
+                continue
+            n += 1
+            v = st.value
+            names = {x.id for x in ast.walk(v) if isinstance(x, ast.Name)}
+            key = "register_assignment:assign_registers:a module scope comes after the main scope and after the modules ordered before it"
+            grows = None
+            # (a) an accumulator that receives the module after it was used:  acc.copy() ... acc.add(module)
+            for nm in names:
+                added = any(isinstance(c, ast.Call) and isinstance(c.func, ast.Attribute) and norm(c.func.value) == nm and c.func.attr in ("add", "append") and c.args and norm(c.args[0]) == mvar
+                            for x in lp.body for c in ast.walk(x)) or \
+                    any(isinstance(x, ast.AugAssign) and norm(x.target) == nm and mvar in norm(x.value) for x in lp.body)
+                if added:
+                    grows = f"accumulator {nm}"
+            # (b) the modules before this one by position: names[:position]
+            if grows is None and pvar is not None:
+                for x in ast.walk(v):
+                    if isinstance(x, ast.Subscript) and isinstance(x.slice, ast.Slice) and x.slice.lower is None and x.slice.upper is not None and norm(x.slice.upper) == pvar \
+                            and modules_iter(x.value, st):
+                        grows = f"slice {norm(x)}"
+            if grows is not None:
+                chk.ok(R, key, {"how": grows})
+            elif not names:
+                chk.bad(R, key, f"every module scope is given the same callers {norm(v)}: the modules are no longer ordered among themselves, each of them only keeps clear of the "
+                        f"main scope and two libraries allocate their (ever-live) globals from the same registers", {"callers": norm(v)}, wa)
+            else:
+                raise AnalysisError(f"assign_registers: what the module scopes are called from ({norm(v)[:60]}) was not understood")
+    if n == 0:
+        raise AnalysisError("assign_registers: the loop that enters the module scopes into called_from was not found")
